@@ -23,6 +23,10 @@ func main() {
 		props.C18Child(os.Args[2])
 		return
 	}
+	if len(os.Args) >= 7 && os.Args[1] == "c20child" {
+		props.C20Child(os.Args[2:])
+		return
+	}
 	if len(os.Args) < 3 {
 		fmt.Println("usage: vcheck <Cxx> <quick|thorough|--replay file>")
 		os.Exit(2)
